@@ -53,7 +53,7 @@ fn main() {
     // --mode 1: the caller's closure drops its arguments and the DESTRUCTOR of an argument
     // panics (instead of the closure panicking by itself)
     let mode: i128 = if a.extra.iter().any(|x| x == "1") { 1 } else { 0 };
-    let ns: Vec<usize> = if a.tier == "thorough" { vec![0, 1, 2, 3, 4, 5, 6, 7, 8, 16, 33] } else { vec![0, 1, 2, 3, 4, 5, 16] };
+    let ns: Vec<usize> = if a.tier == "thorough" { vec![0, 1, 2, 3, 4, 5, 6, 7, 8, 16, 33] } else { vec![0, 1, 2, 3, 4, 5, 33] };
     for &n in &ns {
         // (op, number of forms)
         for (op, nforms) in [(0i128, 4i128), (1, 10), (2, 4), (3, 4), (4, 1), (5, 1)] {
